@@ -493,6 +493,17 @@ static void refKeyword(RefState& s, int sec, const KwOp& k) {
             if (!hasV(dc.st)) return;
             if (dc.st == 'v' || a[g].st == 'u') { a[g].st = dc.st; a[g].v = si(info, dc.d); }
         });
+        if (sec == 0 && info.top && !refValid(s, a)) {
+            // "distribute top layer": every still undefined cell takes the deck entry of the top cell
+            // of its column, provided that top cell is in the box AND ACTIVE (whatever the entry's status)
+            const int layer = s.nx * s.ny;
+            std::vector<int> posOf(layer, -1);
+            forBox(s, [&](int g, int pos) { if (g < layer && s.act[g]) posOf[g] = pos; });
+            for (int g = 0; g < s.n(); ++g) {
+                const int li = g % layer;
+                if (a[g].st == 'u' && posOf[li] >= 0) { a[g].st = 'd'; a[g].v = si(info, k.data[posOf[li]].d); }
+            }
+        }
         return;
     }
     case KT::DATI: {
@@ -935,21 +946,27 @@ struct Gen {
             c.sec[0].push_back(k);
             refKeyword(s, 0, k);
         }
+        // A quarter of the programs end in a deliberately rejected keyword (after `errAt` accepted
+        // ones); the others are steered away from rejection so that long programs survive.
+        const bool wantErr = rng.coin(1, 4);
+        const int errAt = wantErr ? rng.range(0, total - 1) : -1;
+        int done = 0;
         bool dead = false;
         for (int p = 0; p < 5 && !dead; ++p) {
             const int sec = PROC_ORDER[p];
             if (p == 2) refResetActnum(s);
             s.globalBox();
-            for (int j = 0; j < count[sec] && !dead; ++j) {
-                for (int attempt = 0; attempt < 12; ++attempt) {
+            for (int j = 0; j < count[sec] && !dead; ++j, ++done) {
+                const bool seekErr = (done == errAt);
+                for (int attempt = 0; attempt < (seekErr ? 40 : 12); ++attempt) {
                     KwOp k = randKw(c, sec, s);
                     if (!topLayerModelled && sec == 0 && !topSafe(k, s)) continue;
                     RefState t = s;
                     bool ok = true;
                     try { refKeyword(t, sec, k); } catch (const RefErr&) { ok = false; }
-                    if (!ok && !rng.coin(1, 40)) continue;   // mostly steer away from rejected programs
+                    if (seekErr ? ok : (!ok && !rng.coin(1, 40))) continue;
                     c.sec[sec].push_back(k);
-                    if (ok) s = t; else dead = true;
+                    if (ok) s = t; else { dead = true; stats["gen.rejected-keyword"]++; stats[std::string("gen.rejected.") + (k.type == KT::SCAL || k.type == KT::SREG ? k.name : std::to_string((int) k.type))]++; }
                     break;
                 }
             }
@@ -996,7 +1013,7 @@ int main(int argc, char** argv) {
         Gen gen(rng, sink.stats);
         const int n = ncases(tier, 350, 4000);
         for (int j = 0; j < n; ++j) {
-            Case c = gen.randCase(false);
+            Case c = gen.randCase(true);
             countCase(sink.stats, c);
             const std::string deck = deckText(c);
             const Outcome real = runReal(deck, c.nx * c.ny * c.nz);
@@ -1017,7 +1034,7 @@ int main(int argc, char** argv) {
         Gen gen(rng, stats);
         const int n = ncases(tier, 300, 3500);
         for (int j = 0; j < n; ++j) {
-            Case c = gen.randCase(false);
+            Case c = gen.randCase(true);
             countCase(stats, c);
             const std::string deck = deckText(c);
             const std::string key = "case" + std::to_string(j);
